@@ -56,7 +56,10 @@ fn canned_cm() -> credential_management::Response {
         0 => r.total_rps = Some(3),
         1 => {}
         2 => { r.existing_resident_credentials_count = Some(0); r.max_possible_remaining_residential_credentials_count = Some(u32::MAX); }
-        _ => { r.total_credentials = Some(0); r.cred_protect = Some(credential_management::CredentialProtectionPolicy::Required); }
+        3 => { r.total_credentials = Some(0); r.cred_protect = Some(credential_management::CredentialProtectionPolicy::Required); }
+        4 => r.total_rps = Some(0),
+        5 => r.total_credentials = Some(0),
+        _ => { r.total_rps = Some(0); r.total_credentials = Some(0); r.existing_resident_credentials_count = Some(0); }
     }
     r
 }
